@@ -244,6 +244,21 @@ class Driver(object):
             we.setdefault(wid, []).append(lru)
         if self.sess is not None and rng.random() < self.profile.get("continue", 0.6):
             return dict(self.sess)
+        # the very first write on an empty index (fresh or just cleared) is a webentity several stems deep; then
+        # webentities on its ancestors from the top down - the bare scheme first: nodes that were created by the
+        # first walk of an empty trie and have seen no other walk since (profile key "firstwrite" only)
+        if "firstwrite" in self.profile and not obs["pages"] and not obs["we"] and not self.script \
+                and self.story is None and rng.random() < self.profile["firstwrite"]:
+            from impl import stems_of
+            st = stems_of(u.host_prefix())
+            if len(st) >= 2:
+                tops = [b"".join(st[:k]) for k in range(1, len(st))]
+                if rng.random() < 0.4:
+                    rng.shuffle(tops)
+                self.script = [lambda we_, p=p: {"op": "CreateWe", "ps": [p]} for p in tops[:2]]
+                op = {"op": "CreateWe", "ps": [b"".join(st)]}
+                self.note(op)
+                return op
         # a page exactly on the anchor of the rule just installed (the rule's own node is on the walk)
         if self.just_ruled is not None and rng.random() < self.profile.get("anchorpage", 0.25):
             l, self.just_ruled = self.just_ruled, None
